@@ -224,12 +224,17 @@ fn apply_known(exp: &mut Expectation, r: &OpRec) {
         (Op::Flush, Outcome::Unit) => {
             exp.flushed_ids.extend(live_ids(&exp.images));
         }
+        // a successful reopen pins the index set the application asks for: the recorded
+        // one (after an EARLIER index-changing reopen that failed, the fixture went on
+        // with the index set it had before, not with the one the failed call requested)
         (Op::Reopen, Outcome::Unit) => {
             exp.flushed_ids.extend(live_ids(&exp.images));
+            exp.want_idx = r.idx_before;
+            exp.had_idx = exp.want_idx;
         }
         (Op::ReopenWith(d), Outcome::Unit) => {
             exp.flushed_ids.extend(live_ids(&exp.images));
-            exp.want_idx = d.apply(exp.want_idx);
+            exp.want_idx = d.apply(r.idx_before);
             exp.had_idx = exp.want_idx;
         }
         _ => {}
